@@ -90,6 +90,9 @@ func StrVal(s string) Ty            { return Ty{K: "strval", S: []string{s}} }
 func Enum(ci bool, vs ...string) Ty { return Ty{K: "enum", CI: ci, S: vs} }
 func Pat(srcs ...string) Ty         { return Ty{K: "pat", S: srcs} }
 func Rx(src string) Ty              { return Ty{K: "rx", S: []string{src}} }
+
+// Txt: a type argument given as the text of a type expression.
+func Txt(text string) Ty            { return Ty{K: "txt", S: []string{text}} }
 func Coll(lo, hi int64) Ty          { return Ty{K: "coll", Lo: lo, Hi: hi} }
 func Arr(e Ty, lo, hi int64) Ty     { return Ty{K: "arr", Ts: []Ty{e}, Lo: lo, Hi: hi} }
 func Hash(k, v Ty, lo, hi int64) Ty { return Ty{K: "hash", Ts: []Ty{k, v}, Lo: lo, Hi: hi} }
@@ -199,7 +202,7 @@ func (t Ty) Sexp() sx.Sexp {
 			return sx.T("bool", sx.A("f"))
 		}
 		return sx.T("bool", sx.A("n"))
-	case "strval", "rx":
+	case "strval", "rx", "txt":
 		return sx.T(t.K, sx.Str(t.S[0]))
 	case "enum":
 		return sx.T("enum", append([]sx.Sexp{sx.Bool(t.CI)}, strsSexp(t.S)...)...)
@@ -409,7 +412,9 @@ func ParseTy(e sx.Sexp) (Ty, error) {
 			return Bool(0), nil
 		}
 		return Ty{}, fmt.Errorf("bad bool type %s", e)
-	case "strval", "rx":
+	case "strval", "rx", "txt":
+		// (txt <bytes>): a type given as the TEXT of a type expression (top level of an argument only); the implementation
+		// reads it with Context.ParseType, the model with the parser and the creators of the syntax model (C05)
 		if err = arity(e, 1); err != nil {
 			return Ty{}, err
 		}
